@@ -1,4 +1,5 @@
 """Sidecar contracts for btc_hd_wallet/bip32.py (DESIGN Appendix A)."""
+from . import summaries as _SUM_ALWAYS      # noqa: F401,E402  (summaries installed independent of import order)
 import z3
 from pyvc import prims as U
 from pyvc.logic import (Rope, as_rope, is_sym, land, lor, lnot, implies, iff, eq, to_be, ite, seg)
